@@ -26,3 +26,4 @@ def run(repo, res, tier):
     multidict.rule_p8(repo, res)
     multidict.rule_p9(repo, res)
     multidict.rule_p10(repo, res)
+    multidict.rule_ne(repo, res)
